@@ -447,13 +447,13 @@ fn iter_packed_values(raw: u16, format: DeltaFormat, n: usize) -> impl Iterator<
     let max_per_word = 16 / bits;
     #[allow(clippy::needless_range_loop)] // enumerate() feels weird here
     for i in 0..n.min(max_per_word) {
-        let mask = mask << ((16 - bits) - i * bits);
-        let val = (raw & mask) >> ((16 - bits) - i * bits);
+        let shift = (16 - bits) - i * bits;
+        let val = (raw >> shift) & mask;
         let sign = val & sign_mask != 0;
 
         let val = if sign {
-            // it is 2023 and I am googling to remember how twos compliment works
-            -((((!val) & mask) + 1) as i8)
+            // sign extend from `bits` bits
+            (val as i16 - (1i16 << bits)) as i8
         } else {
             val as i8
         };
